@@ -5,7 +5,7 @@ from ..rules import sets
 
 def run(tier, runner):
     pts = matrix.flatset_points(tier) + matrix.smallset_points(tier)
-    progs = matrix.programs(runner, pts)
+    progs = matrix.programs(runner, pts) + matrix.real_programs(runner, tier)
     r_s = sets.search(progs)
     r_h = sets.hint_k(progs)
     r_l = sets.lin_small(progs)
